@@ -385,6 +385,7 @@ func seqPrelude(sort, elem string, quant bool) string {
 	p("(declare-fun %s_upd (%s Int %s) %s)", S, S, elem, S)
 	p("(declare-fun %s_rep (Int %s) %s)", S, elem, S)
 	p("(assert (= (%s_len %s_empty) 0))", S, S)
+	p("(declare-fun %s_diff (%s %s) Int)", S, S, S)
 	if !quant {
 		return b.String()
 	}
@@ -396,7 +397,6 @@ func seqPrelude(sort, elem string, quant bool) string {
 	p("(assert (forall ((s %s) (a Int) (b Int)) (! (=> (and (<= 0 a) (<= a b) (<= b (%s_len s))) (= (%s_len (%s_sl s a b)) (- b a))) :pattern ((%s_sl s a b)))))", S, S, S, S, S)
 	p("(assert (forall ((s %s) (a Int) (b Int) (i Int)) (! (=> (and (<= 0 a) (<= a b) (<= b (%s_len s)) (<= 0 i) (< i (- b a))) (= (%s_idx (%s_sl s a b) i) (%s_idx s (+ a i)))) :pattern ((%s_idx (%s_sl s a b) i)))))", S, S, S, S, S, S, S)
 	// extensionality
-	p("(declare-fun %s_diff (%s %s) Int)", S, S, S)
 	p("(assert (forall ((a %s) (b %s)) (! (=> (and (= (%s_len a) (%s_len b)) (or (< (%s_diff a b) 0) (>= (%s_diff a b) (%s_len a)) (= (%s_idx a (%s_diff a b)) (%s_idx b (%s_diff a b))))) (= a b)) :pattern ((%s_diff a b)))))", S, S, S, S, S, S, S, S, S, S, S, S)
 	p("(assert (forall ((s %s)) (! (= (%s_app s %s_empty) s) :pattern ((%s_app s %s_empty)))))", S, S, S, S, S)
 	p("(assert (forall ((s %s)) (! (= (%s_app %s_empty s) s) :pattern ((%s_app %s_empty s)))))", S, S, S, S, S)
